@@ -147,6 +147,37 @@ def parseBind (s : List Char) : Bind :=
   else if "fd://".toList.isPrefixOf s then .fd (parseNat (s.drop 5))
   else parseInet s
 
+/-! ### The loop `for bind in binds` of `_create_sockets`
+
+One call creates the sockets of a whole list (`bind`, `insecure_bind`, `quic_bind` are lists).  `ConfigSites.createSocketsCarried`
+names the locals of the function whose value can reach an iteration from an earlier one (or from in front of the loop).  The
+model follows the one that matters for the address: when `port` is carried, a bind string that names no port is bound to whatever
+`port` holds when its iteration starts (`8000` in front of the loop, afterwards the port of the nearest earlier inet entry). -/
+
+/-- does the inet bind string name a port (the branch `host, port = value[0], int(value[1])` of `parseInet`) -/
+def inetPortGiven (s : List Char) : Bool :=
+  let bracketedHostOnly := s.head? == some '[' && s.getLast? == some ']'
+  let b := s.filter (fun c => c != '[' && c != ']')
+  if bracketedHostOnly then false
+  else match rsplitColon b with
+    | some (_, p) => (parseNat p).isSome
+    | none => false
+
+def portCarried : Bool := ConfigSites.createSocketsCarried.contains "port"
+
+/-- one iteration; `last` = what the local `port` holds when the iteration starts -/
+def bindStep (last : Nat) (s : List Char) : Bind × Nat :=
+  match parseBind s with
+  | .inet v6 h p => if portCarried && !inetPortGiven s then (.inet v6 h last, last) else (.inet v6 h p, p)
+  | b => (b, last)
+
+def createSocketsFrom : Nat → List (List Char) → List Bind
+  | _, [] => []
+  | last, s :: rest => (bindStep last s).1 :: createSocketsFrom (bindStep last s).2 rest
+
+/-- `_create_sockets(binds, type_)`: what each socket of the returned list is asked to be, in order -/
+def createSockets (binds : List (List Char)) : List Bind := createSocketsFrom 8000 binds
+
 /-! ## `Config.response_headers` -/
 
 structure HeaderCfg where
